@@ -5,4 +5,5 @@ cd "$(dirname "$0")"
 export CARGO_NET_OFFLINE=true
 mkdir -p target evidence replays
 ( cd harness && cargo build --offline ) || exit 1
+( cd gen06 && cargo build --offline ) || exit 1
 exit 0
